@@ -76,9 +76,11 @@ DefaultObs == Obs([s \in Setting |-> DefaultRaw(s)])
 \* a request names a value for a field or leaves it unnamed (None)
 ArgsOf(k) ==
   CASE k = "flag"    -> [state : {"T", "F"}]
-    [] k = "value"   -> [v : {"v1", "v2"}]
-    [] k = "dtypeGP" -> [f : {None, "v1", "v2"}, d : {None, "v1"}, h : {None, "v1", "v2"}]
-    [] k = "dtypeLO" -> [f : {None, "v1", "v2"}, d : {None, "v1"}, h : {None, "v1", "v2"}]
+    \* "d0": the block asks for the value that is also the documented default (it is a block like any other: inside an
+    \* enclosing non-default block it must win, and leaving it must give the enclosing value back)
+    [] k = "value"   -> [v : {"d0", "v1", "v2"}]
+    [] k = "dtypeGP" -> [f : {None, "d0", "v1", "v2"}, d : {None, "v1"}, h : {None, "v1", "v2"}]
+    [] k = "dtypeLO" -> [f : {None, "d0", "v1", "v2"}, d : {None, "v1"}, h : {None, "v1", "v2"}]
     [] k = "fpv"     -> [state : {"T", "F"}, probes : {"d0", "v1", "v2"}]  \* num_probe_vectors defaults to 1 = d0: always named
     [] k = "fc"      -> [root : {"T", "F"}, logprob : {"T", "F"}, solves : {"T", "F"}]
     [] k = "ld"      -> [symeig : {"d0", "v1", "v2"}, chol : {"d0", "v1"}]     \* after default/None resolution: both always named
